@@ -3,8 +3,10 @@ package props
 import (
 	"bytes"
 	"fmt"
+	"sort"
 	"strconv"
 	"strings"
+	"sync"
 	"time"
 
 	"github.com/gdamore/tcell/v2/terminfo"
@@ -188,6 +190,34 @@ func C15(r *core.Run) {
 		r.Count("timing_cases", 1)
 	}
 	{
+		// every well-formed spelling of a 20 s delay, on descriptions without a pad
+		// character (an empty one and the registered xterm): none may sleep (10 s bound)
+		var specs []string
+		for _, num := range []string{"20000", "20000.0", "20000.5"} {
+			for _, fl := range []string{"", "*", "/", "*/", "/*"} {
+				specs = append(specs, "x$<"+num+fl+">y")
+			}
+		}
+		nopads := []*terminfo.Terminfo{noPad, CopyTI(Pristine("xterm-256color")), CopyTI(Pristine("st-256color"))}
+		var twg sync.WaitGroup
+		for ti, tp := range nopads {
+			if tp.PadChar != "" {
+				continue
+			}
+			for _, sp := range specs {
+				twg.Add(1)
+				go func(ti int, tp *terminfo.Terminfo, sp string) {
+					defer twg.Done()
+					t0 := time.Now()
+					tputs(tp, sp)
+					if el := time.Since(t0); el > 10*time.Second {
+						r.Violate("padding:delay-without-padchar", fmt.Sprintf("TPuts(%q) on description %d (no pad character) slept %v", sp, ti, el), nil)
+					}
+					r.Count("timing_cases", 1)
+				}(ti, tp, sp)
+			}
+		}
+		twg.Wait()
 		t0 := time.Now()
 		tputs(noPad, "x$<20000>y")
 		if el := time.Since(t0); el > 10*time.Second {
@@ -287,5 +317,53 @@ func C15(r *core.Run) {
 		}
 		r.CaseN(n, n)
 	})
+	// ---- (4) the same strings from entries as applications obtain them -----
+	// "for every built-in terminal": LookupTerminfo(name) after the derived names
+	// (-256color, -truecolor, which tcell fabricates on demand) have been looked up must
+	// still give the cursor and colour strings of the registered entry.
+	snapshot()
+	var names []string
+	for k := range snapMap {
+		names = append(names, k)
+	}
+	sort.Strings(names)
+	defer RestoreRegistry()
+	for _, nm := range names {
+		base := nm
+		for _, suf := range []string{"-256color", "-88color", "-16color", "-color", "-truecolor"} {
+			base = strings.TrimSuffix(base, suf)
+		}
+		for _, suf := range []string{"-truecolor", "-256color"} {
+			_, _ = terminfo.LookupTerminfo(base + suf)
+			_, _ = terminfo.LookupTerminfo(nm + suf)
+		}
+	}
+	nl := int64(0)
+	for _, nm := range names {
+		got, err := terminfo.LookupTerminfo(nm)
+		want := Pristine(nm)
+		if err != nil {
+			r.Violate("lookup-sequence:lost", fmt.Sprintf("LookupTerminfo(%q) fails after the derived names were looked up: %v", nm, err), nil)
+			continue
+		}
+		bad := false
+		for fg := -1; fg <= 300 && !bad; fg += 3 {
+			for bg := -1; bg <= 300 && !bad; bg += 5 {
+				nl++
+				if a, b := got.TColor(fg, bg), want.TColor(fg, bg); a != b {
+					r.Violate("lookup-sequence:tcolor", fmt.Sprintf("after looking up the derived -256color/-truecolor names, LookupTerminfo(%q).TColor(%d,%d) = %q; the registered entry gives %q (colours %d vs %d)", nm, fg, bg, a, b, got.Colors, want.Colors), map[string]any{"entry": nm})
+					bad = true
+				}
+			}
+		}
+		for _, p := range [][2]int{{0, 0}, {7, 3}, {95, 96}, {250, 131}} {
+			if a, b := got.TGoto(p[0], p[1]), want.TGoto(p[0], p[1]); a != b && !bad {
+				r.Violate("lookup-sequence:tgoto", fmt.Sprintf("after looking up the derived names, LookupTerminfo(%q).TGoto(%d,%d) = %q; the registered entry gives %q", nm, p[0], p[1], a, b), nil)
+				bad = true
+			}
+		}
+	}
+	r.CaseN(nl, nl)
+	r.Set("names_looked_up_after_derived_names", len(names))
 	r.Sample(8, map[string]any{"kind": "tcolor", "entry": "xterm-256color", "example": fmt.Sprintf("(9,200) -> %q", Pristine("xterm-256color").TColor(9, 200))})
 }
